@@ -99,7 +99,7 @@ def run(ck):
                 raise vf.Infra("self-test: TimingWheel.tla with DeadlineCheck=FALSE should violate NoEarly, got %r" % r.violated)
             continue
         for a, (tk, gn) in r.coverage.items():
-            ck.cov["Wheel." + a] = ck.cov.get("Wheel." + a, 0) + tk
+            ck.cov["Wheel." + a] = ck.cov.get("Wheel." + a, 0) + gn
         ck.note("TimingWheel %s (TPW=%d NW=%d): %s" % (name, tpw, nw, r.summary()))
         if r.violated:
             rp = ck.save_replay("wheel_model_" + name, {"tlc.out": r.out})
